@@ -102,10 +102,17 @@ def run(ctx):
                         og2 = fn_origins(tp, rv[5][2], 'adapters')
                         ok = ok and has(og2, 'pty:SignedEntityConfig.' + cfgf + '*')
                     inst = 'time_point_to_signed_entity: %s(epoch of the time point, block number from the tip through the %s, ...)' % (rv[4], cfgf)
-                    if ok:
+                    # ... and through nothing else of the configuration: the beacon of an entity is a function of the time point and its OWN
+                    # signing configuration (seed C17-5: the blocks beacon took min() with the transactions' security parameter)
+                    foreign = set()
+                    for opnd in rv[5]:
+                        for o in fn_origins(tp, opnd, True):
+                            if glob_match('pty:SignedEntityConfig.*', o) and not o.startswith('pty:SignedEntityConfig.' + cfgf):
+                                foreign.add(o)
+                    if ok and not foreign:
                         R.ok('b', 'R5', inst, '', tp.loc())
                     else:
-                        R.violation('b', 'R5', inst, 'beacon:operands:%s' % rv[4], '', tp.loc())
+                        R.violation('b', 'R5', inst, 'beacon:operands:%s' % rv[4], ('the beacon also depends on %s' % sorted(foreign)[:3]) if foreign else '', tp.loc())
     # ---- (b) who builds the block-number variants
     allow = [
         (TP + '*', 'the beacon function'),
@@ -187,6 +194,8 @@ def run(ctx):
             o1 = fn_origins(f, c.args[1], True)
             mx = [m for m in body.calls() if any(glob_match('std::cmp::max', n) or glob_match('*::Ord>::max', n) or glob_match('std::cmp::Ord::max', n) for n in m.names())
                   and any(body.const_of(a) == 1 or has(fn_origins(f, a, True), 'const:1*') or has(fn_origins(f, a, True), 'adt:*BlockNumber*') for a in m.args)]
+            if body.const_of(c.args[1]) not in (None, 0) or (has(o1, 'const:*') and not any(o.startswith(('p#', 'pty:', 'param:', 'call:')) for o in o1)):
+                continue        # a literal non-zero divisor
             if not ((has(o1, 'call:std::cmp::max') or has(o1, 'call:*::max')) and mx):
                 problems.append('the divisor of %s (line %s) is not floored at 1 (step = 0 would panic)' % (fn_short(c.best()), c.line))
         if fn == TXC:
